@@ -111,11 +111,6 @@ func (s *ProtoScenario) Check(k *sim.Kernel) []sim.Violation {
 	// handler events are attributed to connections through task identity:
 	// the handler task (and its ctxio helper children) are the users of the
 	// connection's server end
-	type hev struct {
-		seq  uint64
-		kind string
-		data string
-	}
 	perClient := map[int][]hev{}
 	for _, e := range k.Log {
 		if !strings.HasPrefix(e.Kind, "h.") {
@@ -131,132 +126,8 @@ func (s *ProtoScenario) Check(k *sim.Kernel) []sim.Violation {
 		perClient[owner] = append(perClient[owner], hev{e.Seq, e.Kind, e.Data})
 	}
 	for ci, cs := range s.Clients {
-		conn := conns[ci]
-		cm := ModelConn(s.Service, cs.Frames, cs.StopAfter, s.Scripts)
-		key := fmt.Sprintf("client%d", ci)
-		if conn == nil {
-			if !s.Faulted {
-				out = append(out, vio("harness", key, "client never connected"))
-			}
-			continue
-		}
 		faulted := cs.End != "close" || cs.NoRead
-		// --- reply stream
-		obs, rest, err := parseReplies(conn.Server.Tap)
-		if err != nil {
-			out = append(out, vio("framing", "reply-not-an-object", "%s: %v", key, err))
-			continue
-		}
-		if len(rest) != 0 && !faulted && !cm.RawMode {
-			out = append(out, vio("framing", "reply-without-nul", "%s: %d trailing bytes without NUL", key, len(rest)))
-		}
-		exp := cm.Replies
-		limit := len(exp)
-		if cm.AmbiguousFrom >= 0 {
-			limit = cm.AmbiguousFrom
-		}
-		for i := 0; i < len(obs) && i < limit; i++ {
-			if !sameReply(obs[i], exp[i]) {
-				out = append(out, vio("reply-stream", replyKey(exp[i], obs[i]), "%s reply %d: expected %v, observed %v", key, i, exp[i], obs[i]))
-				break
-			}
-		}
-		if cm.AmbiguousFrom < 0 && !cm.RawMode {
-			if len(obs) > len(exp) {
-				out = append(out, vio("reply-stream", "extra-reply", "%s: %d replies expected, %d observed; first extra %v", key, len(exp), len(obs), obs[len(exp)]))
-			} else if len(obs) < len(exp) && !faulted {
-				out = append(out, vio("reply-stream", "missing-reply", "%s: %d replies expected, %d observed; first missing %v", key, len(exp), len(obs), exp[len(obs)]))
-			}
-		}
-		// what the client read is what the server wrote (transport sanity, fault-free only)
-		if !faulted && !bytes.Equal(conn.Client.ReadLog, conn.Server.Tap) {
-			out = append(out, vio("harness", "transport", "%s: client read %d bytes, server wrote %d", key, len(conn.Client.ReadLog), len(conn.Server.Tap)))
-		}
-		// --- dispatch log and handler intervals
-		evs := perClient[ci]
-		var enters []hEnter
-		open := -1
-		for _, e := range evs {
-			switch e.kind {
-			case "h.enter":
-				var h hEnter
-				json.Unmarshal([]byte(e.data), &h)
-				if open != -1 {
-					out = append(out, vio("handler-overlap", "enter-before-leave", "%s: call cid=%d dispatched at seq %d while cid=%d has not returned", key, h.Cid, e.seq, open))
-				}
-				open = h.Cid
-				enters = append(enters, h)
-			case "h.leave":
-				open = -1
-			}
-		}
-		if cm.AmbiguousFrom < 0 {
-			for i, h := range enters {
-				if i >= len(cm.Dispatch) {
-					out = append(out, vio("dispatch", "extra-dispatch", "%s: unexpected dispatch #%d %s.%s cid=%d", key, i, h.Iface, h.Method, h.Cid))
-					break
-				}
-				d := cm.Dispatch[i]
-				if d.Cid != h.Cid || d.Iface != h.Iface || d.Method != h.Method {
-					out = append(out, vio("dispatch", "wrong-dispatch", "%s: dispatch #%d expected %s|%s cid=%d, observed %s|%s cid=%d", key, i, d.Iface, d.Method, d.Cid, h.Iface, h.Method, h.Cid))
-					break
-				}
-			}
-			if len(enters) < len(cm.Dispatch) && !faulted {
-				d := cm.Dispatch[len(enters)]
-				out = append(out, vio("dispatch", "missing-dispatch", "%s: dispatch #%d %s|%s cid=%d never happened", key, len(enters), d.Iface, d.Method, d.Cid))
-			}
-		}
-		// flags and parameters as seen by the handler
-		for i, h := range enters {
-			if i >= len(cm.Dispatch) || cm.AmbiguousFrom >= 0 {
-				break
-			}
-			f := cs.Frames[cm.Dispatch[i].Frame]
-			pc := parseCall(f.Text)
-			if !pc.ok || pc.ambiguous {
-				continue
-			}
-			if pc.more != h.More || pc.oneway != h.Oneway || pc.upgrade != h.Upgrade {
-				out = append(out, vio("flags", "handler-flags", "%s cid=%d: sent more=%v oneway=%v upgrade=%v, handler saw %v %v %v", key, h.Cid, pc.more, pc.oneway, pc.upgrade, h.More, h.Oneway, h.Upgrade))
-			}
-			if pc.hasParams {
-				want, _ := canon(pc.params)
-				got, err := canon([]byte(h.Params))
-				if err != nil || want != got {
-					out = append(out, vio("params", "handler-params", "%s cid=%d: sent %s, handler saw %s", key, h.Cid, abbreviate(want, 200), abbreviate(h.Params, 200)))
-				}
-			}
-		}
-		// reply attempts: refused ones returned an error, accepted ones did not
-		for _, e := range evs {
-			if e.kind != "h.act" {
-				continue
-			}
-			var a hAct
-			json.Unmarshal([]byte(e.data), &a)
-			if a.Op == "rawwrite" {
-				continue
-			}
-			if contains(cm.Refused[a.Cid], a.I) && a.Err != "err" {
-				out = append(out, vio("refusal", "refused-attempt-accepted", "%s cid=%d action %d (%s): must be refused, handler got nil", key, a.Cid, a.I, a.Op))
-			}
-			if contains(cm.Accepted[a.Cid], a.I) && a.Err != "nil" && !faulted {
-				out = append(out, vio("refusal", "legal-attempt-refused", "%s cid=%d action %d (%s): must be accepted, handler got an error", key, a.Cid, a.I, a.Op))
-			}
-		}
-		// --- end of connection
-		if cm.ServerCloses && !cm.RawMode && cm.AmbiguousFrom < 0 {
-			if !conn.Server.Closed {
-				out = append(out, vio("conn-end", "server-did-not-close", "%s: server must end the connection (bad frame %d / failed cid %d) but its end is still open", key, cm.BadFrame, cm.EndsAfterCid))
-			}
-		}
-		if !cm.ServerCloses && !cm.RawMode && cm.AmbiguousFrom < 0 && !cm.Incomplete {
-			// the server must not hang up first
-			if conn.Server.Closed && (conn.Client.CloseSeq == 0 || conn.Server.CloseSeq < conn.Client.CloseSeq) {
-				out = append(out, vio("conn-end", "server-hung-up", "%s: server closed the connection (seq %d) before the client did (seq %d)", key, conn.Server.CloseSeq, conn.Client.CloseSeq))
-			}
-		}
+		out = append(out, checkClientConn(fmt.Sprintf("client%d", ci), s.Service, s.Scripts, cs, conns[ci], perClient[ci], faulted, s.Faulted, false)...)
 	}
 	// handler events that belong to no scripted client (the probe connection has none)
 	for _, e := range perClient[-1] {
@@ -399,7 +270,12 @@ func (s *ProtoScenario) Shrinks() []Scenario {
 		func(c *sim.Config) bool { ok := c.ShortReads != 0; c.ShortReads = 0; return ok },
 		func(c *sim.Config) bool { ok := c.MaxLatencyUs != 0; c.MaxLatencyUs = 0; return ok },
 		func(c *sim.Config) bool { ok := c.PipeCap != 0; c.PipeCap = 0; return ok },
-		func(c *sim.Config) bool { ok := c.Sched != 1 || c.StickPct != 100; c.Sched = 1; c.StickPct = 100; return ok },
+		func(c *sim.Config) bool {
+			ok := c.Sched != 1 || c.StickPct != 100
+			c.Sched = 1
+			c.StickPct = 100
+			return ok
+		},
 	}
 	for _, f := range cfgs {
 		c := s.clone()
@@ -576,4 +452,143 @@ func genCuts(g *Gen, total int) ([]int, []int) {
 		}
 	}
 	return cuts, pauses
+}
+
+// hev is one handler event attributed to a connection.
+type hev struct {
+	seq  uint64
+	kind string
+	data string
+}
+
+// checkClientConn judges one connection against the model of its script.
+// faulted: the connection may have been cut short (observed is a prefix of
+// the model's); mayNotConnect: a missing connection is not an error.
+func checkClientConn(key string, svc ServiceSpec, scripts map[int]Script, cs ClientSpec, conn *sim.Conn, evs []hev, faulted, mayNotConnect, serverMayHangUp bool) []sim.Violation {
+	var out []sim.Violation
+	cm := ModelConn(svc, cs.Frames, cs.StopAfter, scripts)
+	if conn == nil {
+		if !mayNotConnect {
+			out = append(out, vio("harness", key, "client never connected"))
+		}
+		return out
+	}
+	{
+		// --- reply stream
+		obs, rest, err := parseReplies(conn.Server.Tap)
+		if err != nil {
+			out = append(out, vio("framing", "reply-not-an-object", "%s: %v", key, err))
+			return out
+		}
+		if len(rest) != 0 && !faulted && !cm.RawMode {
+			out = append(out, vio("framing", "reply-without-nul", "%s: %d trailing bytes without NUL", key, len(rest)))
+		}
+		exp := cm.Replies
+		limit := len(exp)
+		if cm.AmbiguousFrom >= 0 {
+			limit = cm.AmbiguousFrom
+		}
+		for i := 0; i < len(obs) && i < limit; i++ {
+			if !sameReply(obs[i], exp[i]) {
+				out = append(out, vio("reply-stream", replyKey(exp[i], obs[i]), "%s reply %d: expected %v, observed %v", key, i, exp[i], obs[i]))
+				break
+			}
+		}
+		if cm.AmbiguousFrom < 0 && !cm.RawMode {
+			if len(obs) > len(exp) {
+				out = append(out, vio("reply-stream", "extra-reply", "%s: %d replies expected, %d observed; first extra %v", key, len(exp), len(obs), obs[len(exp)]))
+			} else if len(obs) < len(exp) && !faulted {
+				out = append(out, vio("reply-stream", "missing-reply", "%s: %d replies expected, %d observed; first missing %v", key, len(exp), len(obs), exp[len(obs)]))
+			}
+		}
+		// what the client read is what the server wrote (transport sanity, fault-free only)
+		if !faulted && !bytes.Equal(conn.Client.ReadLog, conn.Server.Tap) {
+			out = append(out, vio("harness", "transport", "%s: client read %d bytes, server wrote %d", key, len(conn.Client.ReadLog), len(conn.Server.Tap)))
+		}
+		// --- dispatch log and handler intervals
+		var enters []hEnter
+		open := -1
+		for _, e := range evs {
+			switch e.kind {
+			case "h.enter":
+				var h hEnter
+				json.Unmarshal([]byte(e.data), &h)
+				if open != -1 {
+					out = append(out, vio("handler-overlap", "enter-before-leave", "%s: call cid=%d dispatched at seq %d while cid=%d has not returned", key, h.Cid, e.seq, open))
+				}
+				open = h.Cid
+				enters = append(enters, h)
+			case "h.leave":
+				open = -1
+			}
+		}
+		if cm.AmbiguousFrom < 0 {
+			for i, h := range enters {
+				if i >= len(cm.Dispatch) {
+					out = append(out, vio("dispatch", "extra-dispatch", "%s: unexpected dispatch #%d %s.%s cid=%d", key, i, h.Iface, h.Method, h.Cid))
+					break
+				}
+				d := cm.Dispatch[i]
+				if d.Cid != h.Cid || d.Iface != h.Iface || d.Method != h.Method {
+					out = append(out, vio("dispatch", "wrong-dispatch", "%s: dispatch #%d expected %s|%s cid=%d, observed %s|%s cid=%d", key, i, d.Iface, d.Method, d.Cid, h.Iface, h.Method, h.Cid))
+					break
+				}
+			}
+			if len(enters) < len(cm.Dispatch) && !faulted {
+				d := cm.Dispatch[len(enters)]
+				out = append(out, vio("dispatch", "missing-dispatch", "%s: dispatch #%d %s|%s cid=%d never happened", key, len(enters), d.Iface, d.Method, d.Cid))
+			}
+		}
+		// flags and parameters as seen by the handler
+		for i, h := range enters {
+			if i >= len(cm.Dispatch) || cm.AmbiguousFrom >= 0 {
+				break
+			}
+			f := cs.Frames[cm.Dispatch[i].Frame]
+			pc := parseCall(f.Text)
+			if !pc.ok || pc.ambiguous {
+				return out
+			}
+			if pc.more != h.More || pc.oneway != h.Oneway || pc.upgrade != h.Upgrade {
+				out = append(out, vio("flags", "handler-flags", "%s cid=%d: sent more=%v oneway=%v upgrade=%v, handler saw %v %v %v", key, h.Cid, pc.more, pc.oneway, pc.upgrade, h.More, h.Oneway, h.Upgrade))
+			}
+			if pc.hasParams {
+				want, _ := canon(pc.params)
+				got, err := canon([]byte(h.Params))
+				if err != nil || want != got {
+					out = append(out, vio("params", "handler-params", "%s cid=%d: sent %s, handler saw %s", key, h.Cid, abbreviate(want, 200), abbreviate(h.Params, 200)))
+				}
+			}
+		}
+		// reply attempts: refused ones returned an error, accepted ones did not
+		for _, e := range evs {
+			if e.kind != "h.act" {
+				return out
+			}
+			var a hAct
+			json.Unmarshal([]byte(e.data), &a)
+			if a.Op == "rawwrite" {
+				return out
+			}
+			if contains(cm.Refused[a.Cid], a.I) && a.Err != "err" {
+				out = append(out, vio("refusal", "refused-attempt-accepted", "%s cid=%d action %d (%s): must be refused, handler got nil", key, a.Cid, a.I, a.Op))
+			}
+			if contains(cm.Accepted[a.Cid], a.I) && a.Err != "nil" && !faulted {
+				out = append(out, vio("refusal", "legal-attempt-refused", "%s cid=%d action %d (%s): must be accepted, handler got an error", key, a.Cid, a.I, a.Op))
+			}
+		}
+		// --- end of connection
+		if cm.ServerCloses && !cm.RawMode && cm.AmbiguousFrom < 0 {
+			if !conn.Server.Closed {
+				out = append(out, vio("conn-end", "server-did-not-close", "%s: server must end the connection (bad frame %d / failed cid %d) but its end is still open", key, cm.BadFrame, cm.EndsAfterCid))
+			}
+		}
+		if !cm.ServerCloses && !cm.RawMode && cm.AmbiguousFrom < 0 && !cm.Incomplete && !serverMayHangUp {
+			// the server must not hang up first
+			if conn.Server.Closed && (conn.Client.CloseSeq == 0 || conn.Server.CloseSeq < conn.Client.CloseSeq) {
+				out = append(out, vio("conn-end", "server-hung-up", "%s: server closed the connection (seq %d) before the client did (seq %d)", key, conn.Server.CloseSeq, conn.Client.CloseSeq))
+			}
+		}
+	}
+	return out
 }
